@@ -21,39 +21,7 @@ use super::spec::*;
 pub enum IntervalError { InvalidBounds, EmptyInterval }
 
 //@item src/interval.rs enum Interval
-//@impl src/interval.rs impl<T: PartialOrd> Interval<T>
-//@fn new ret r
-//@| ensures T::obeys_partial_cmp_spec() ==> r == new_spec(low, high),
-//@|         T::obeys_partial_cmp_spec() && r is Ok ==> wf(r->Ok_0),
-//@fn new_upper ret r
-//@| ensures r == Interval::UpperOneSided(low),
-//@fn new_lower ret r
-//@| ensures r == Interval::LowerOneSided(high),
-//@fn is_two_sided ret r
-//@| ensures r == (*self is TwoSided),
-//@fn is_one_sided ret r
-//@| ensures r == !(*self is TwoSided),
-//@fn is_upper ret r
-//@| ensures r == (*self is UpperOneSided),
-//@fn is_lower ret r
-//@| ensures r == (*self is LowerOneSided),
-//@fn contains ret r
-//@| requires total_order::<T>(),
-//@| ensures r == den(*self, *x),
-//@fn intersects ret r
-//@| requires total_order::<T>(),
-//@| ensures r == meet_qf(*self, *other),
-//@fn is_included_in ret r
-//@| requires total_order::<T>(),
-//@| ensures r == incl_qf(*other, *self),
-//@fn includes ret r
-//@| requires total_order::<T>(),
-//@| ensures r == incl_qf(*self, *other),
-//@fn left ret r
-//@| ensures match *self { Interval::TwoSided(l, _) => r == Some(&l), Interval::UpperOneSided(l) => r == Some(&l), Interval::LowerOneSided(_) => r is None },
-//@fn right ret r
-//@| ensures match *self { Interval::TwoSided(_, h) => r == Some(&h), Interval::LowerOneSided(h) => r == Some(&h), Interval::UpperOneSided(_) => r is None },
-//@endimpl
+//@include prelude/interval_core_code.rs
 // ---- C14: conversions and accessors (generic T).  vstd attaches the contract of a From / TryFrom / RangeBounds implementation
 // through the *SpecImpl traits below; each `*_spec` function is written from the property (which value goes where), and Verus
 // checks the extracted body against it.
